@@ -37,6 +37,7 @@ EmitModel ==
   Emit => \A m \in {"min", "full"} :
      LET tk == Toks(m) f == Build(T, tk) IN
      PrintT(ToJson([text |-> Text(T, tk, "spaced", FALSE), flat_wo |-> FlatShape(f), flat |-> FlatShape(Compile(f)),
-                    deep |-> DeepShape(DParse(T, tk).e)]))
+                    deep |-> DeepShape(DParse(T, tk).e),
+                    up |-> Unparse(T, DParse(T, tk).e, <<64>>, TRUE)]))      \* `@`: any number node that is not a plain literal
 ASSUME Emit => PrintT(ToJson([table |-> T]))
 =============================================================================
